@@ -91,8 +91,8 @@ func checkC17(c *Ctx) {
 				c.Viol("FR-PROV", key, in.Pos(), "filterRaw appends something that is neither a sub-slice of its input nor &lt;")
 			}
 		}
-		if n < 4 {
-			c.Undecided("FR-PROV", "instance-count", token.NoPos, fmt.Sprintf("%d appends found in filterRaw, 4 confirmed by hand", n))
+		if n < 1 {
+			c.Undecided("FR-PROV", "instance-count", token.NoPos, fmt.Sprintf("%d appends found in filterRaw; it must append its input somewhere", n))
 		}
 	}
 	// LOWER + NILFILTER over all FilterTag calls
@@ -119,8 +119,8 @@ func checkC17(c *Ctx) {
 			c.Check(guarded, "NILFILTER", key, in.Pos(), "FilterTag must be called only where it is known to be non-nil")
 		})
 	}
-	if nCalls < 3 {
-		c.Undecided("LOWER", "instance-count", token.NoPos, fmt.Sprintf("%d FilterTag calls found, 3 confirmed by hand", nCalls))
+	if nCalls < 1 {
+		c.Undecided("LOWER", "instance-count", token.NoPos, fmt.Sprintf("%d FilterTag calls found; every call of the predicate in the module is inspected", nCalls))
 	}
 	// NILFILTER: roll-backs and &lt; substitutions
 	for fn, evs := range h.events {
